@@ -383,6 +383,20 @@ func runC19(e *Env) {
 				r.OK("E4.unsupported", "GOARCH/"+ga, "", fmt.Sprintf("Info %q has no table: GetInfo returns the unsupported-arch error (len(SyscallNames)==0 guard)", il.name))
 			default:
 				want, known := map[string]string{"amd64": "x86_64", "386": "i386", "arm": "arm", "arm64": "aarch64"}[ga]
+				if !known {
+					// a port that gets a table later: the table must be the one of that port (Linux name = GOARCH, or the
+					// recorded spelling difference)
+					for ln, g := range goarchOf {
+						if g == ga {
+							want, known = ln, true
+						}
+					}
+					if !known {
+						if _, ok := abiOf[ga]; ok {
+							want, known = ga, true
+						}
+					}
+				}
 				r.Check(known && il.name == want, "E4.unsupported", "GOARCH/"+ga, "", fmt.Sprintf("compiles with the %s table", il.name),
 					fmt.Sprintf("GOARCH %s compiles filters with the table of %q", ga, il.name))
 			}
